@@ -77,7 +77,8 @@ func (d *VerifC08Descent) state(f *verifC08Frame, err error) VerifC08State {
 }
 
 // Start begins a resolution for qname. kind: "start" (new request, fresh ResponseMeta),
-// "sub" (resolver sub-query: same ResponseMeta), "chase" (cache-level sub-query under
+// "sub" (resolver sub-query: same ResponseMeta), "nsl" (the same, marked as a name-server
+// address lookup), "chase" (cache-level sub-query under
 // middleware.WithForkedCut).
 func (d *VerifC08Descent) Start(kind, qname string) VerifC08State {
 	req := new(dns.Msg)
@@ -87,6 +88,9 @@ func (d *VerifC08Descent) Start(kind, qname string) VerifC08State {
 	switch {
 	case kind == "sub" && d.top() != nil:
 		f.meta, f.ctx = d.top().meta, d.top().ctx
+	case kind == "nsl" && d.top() != nil:
+		// a name-server ADDRESS sub-lookup: same ResponseMeta, context marked as lookupNSAddrV4 marks it
+		f.meta, f.ctx = d.top().meta, context.WithValue(d.top().ctx, contextKeyNSL, struct{}{})
 	case kind == "chase" && d.top() != nil:
 		ctx2, child := middleware.WithForkedCut(d.top().ctx)
 		f.meta, f.ctx, f.outer = child, ctx2, d.top().meta
